@@ -76,5 +76,23 @@ func findingCases() map[string]Case {
 		"F-20d-response-key-vs-fragment-holder-name": mk(fixedSchema(), q(f("a", on("Alpha", f("x")), fa("alpha", "id")))),
 		"F-20e-repeated-type-condition-loses-fields": mk(fixedSchema(), q(f("u", f("__typename"), on("Alpha", f("x")), on("Alpha", f("c"))))),
 		"F-20f-enum-constant-collision":              mk(clash, q(f("a", f("c")))),
+		"F-20g-sel-type-name-collision":              selNameClash(),
 	}
+}
+
+// selNameClash: the generated type names are "sel" + type name + a run-wide counter. With object types
+// Node and Node1, the first sel type (on Node1, counter 0) and the eleventh (on Node, counter 10) are
+// both called selNode10.
+func selNameClash() Case {
+	x := FieldSpec{Name: "x", Type: named("Int")}
+	s := SchemaSpec{Query: "Query", Types: []TypeSpec{
+		{Kind: "object", Name: "Node", Fields: []FieldSpec{x}},
+		{Kind: "object", Name: "Node1", Fields: []FieldSpec{x}},
+		{Kind: "object", Name: "Query", Fields: []FieldSpec{{Name: "a", Type: named("Node1")}, {Name: "b", Type: named("Node")}}},
+	}}
+	sels := []Sel{f("a", Sel{Kind: "i", Sels: []Sel{f("x")}})}
+	for i := 1; i <= 10; i++ {
+		sels = append(sels, fa("b"+string(rune('a'+i)), "b", Sel{Kind: "i", Sels: []Sel{f("x")}}))
+	}
+	return Case{Schema: s, Docs: []Doc{{Defs: []Def{{Kind: "query", Name: "Q1", Sels: sels}}}}, Seed: 7, Worlds: 2}
 }
